@@ -652,7 +652,7 @@ def main():
     chk.assumptions = [
         "the build has no `stacker` feature (set_recursion_limit clamps at 500; do_eval calls eval_impl directly)",
         "scopes are balanced (a PopFrame never goes below the frames its activation started with) - property C05",
-        "errors are not caught inside a render (an Err ends the run of the model)",
+        "an error either ends the render or is swallowed by a host callable that goes on with the state it was handed (theorem swallowed_refusal_is_noop: the accounting is then where it was); templates themselves cannot catch errors",
         "stack_fits_2mib is conditional on: one nested activation takes at most 20480 bytes of native stack, everything else at most 256 KiB; part (b) measures both on every run (coverage.stack_exploration.calibration)",
         "native stack use of filters/functions/objects supplied by the embedding application is outside the property"]
     ok_models, blog = build_models("C11")
@@ -907,6 +907,9 @@ def main():
                        "data nested deeper than the limit at top level / in a macro / in a block / in an included template; x limits {1,2,5,10,50,100,250,500} (+ default, 501, 1000, 2^40 on a sample; "
                        "+ EVERY limit in [1,500] on the bare single-edge recursions%s) "
                        "x {debug, release} x {8 MiB, 2 MiB thread} (+ a sample on the process main thread); "
+                       "HOST CALLABLES THAT SWALLOW ERRORS: try_block(name) / try_macro(name) = state.render_block / state.call_macro(..).unwrap_or_default() as a spelling of the block and macro "
+                       "edges (cycles block -> host callable -> render_block -> ...) and as 1-3 optional, refusable renders per level before the self-nesting one; the render then ends normally and the "
+                       "probe-measured level of the swallowed refusal must be the model's (a refused admission charges nothing and refunds nothing). "
                        "ENVIRONMENT DERIVATION: the pure recursions and a seeded sample of decorated programs rendered through %d ways of obtaining the environment "
                        "(clone, clone of a clone, modified clone, clone configured after / taken before set_recursion_limit, original after its clone was reconfigured, moved / scoped / Arc-shared "
                        "to another thread, loader, autoreload acquire_env first / reloaded / fast reload) x %d entry APIs (get_template, template_from_str, template_from_named_str, render_str, "
